@@ -556,6 +556,10 @@ def convert_db(gtf_filename, genedb_filename, convert_fn, args):
             converted_db = find_converted_db(converted_gtfs, gtf_filename, args.complete_genedb)
             if converted_db is not None:
                 logger.info("Gene annotation file found. Using " + converted_db)
+                if args.gtf_check:
+                    # the cached database may have been converted without this check (by an earlier version, or by
+                    # a run with --no_gtf_check); given as --genedb it would be refused, so it is not used from the cache either
+                    check_db_sequences(converted_db, annotation_name=gtf_filename)
                 return gtf_filename, converted_db
         else:
             for converted_gtf in converted_gtfs:
